@@ -193,6 +193,18 @@ check(
     "DESIGN.md §2.5, §3 C10",
 )
 
+check(
+    "C16",
+    "engine-B",
+    "exploration",
+    "runtime monitoring: index model monitor after every run of generated histories on the controlled engine, real 'orphans' command as second observer, crash-point injection in experiment.__enter__/__exit__, holder-file overlap detector for two real processes",
+    "Histories of 2-6 runs (normal / aborted after k submissions) are executed; after each run the symlink index and its backup are compared with the harness's model and the real orphans "
+    "command must not list a protected job; a victim process replaying such histories is killed at every statement of __enter__/__exit__ and a follow-up run must restore the exact index; "
+    "pairs of real processes contend for one experiment and a holder file detects any overlap.",
+    "Trusted: the progress log of the victim for killed runs; jobs are simulated processes (the index code does not depend on them).",
+    "DESIGN.md §3 C16",
+)
+
 NOT_APPLICABLE = []
 
 
